@@ -19,6 +19,17 @@ def run(tier, acc):
     # MC_OptGen = the term generator + ClassicOpt.tla: TLC asserts C04 on the rule-level model of the optimiser for every
     # enumerated (term, environment) and prints the model's answer, which the harness compares with optimize_sexp's (drift)
     cc.gen_and_replay(acc, "opt_clean", n, "opt", "clean", "C04", module="MC_OptGen", extra="OptCheck")
+    # non-vacuity of the model-level assertion: three unsound optimisers are refuted on the same enumeration
+    import os
+    for variant in ("zero_path_is_args", "compose_reversed", "constant_in_env"):
+        cfg = cc.write_cfg(f"MC_OptGen_nv_{variant}.cfg", 4, "opt", "clean", extra="OptCheck", variant=variant)
+        rv = core.run_tlc("MC_OptGen", cfg, f"C04_nv_{variant}", workers=8, timeout=1500, coverage=False, expect_failure=True)
+        if os.path.exists(rv.out_path):
+            os.remove(rv.out_path)
+        if rv.ok or not any("Assert evaluated to FALSE" in e for e in rv.errors):
+            raise core.ToolError(f"ClassicOpt's soundness assertion is vacuous: the unsound variant {variant} is not refuted")
+        os.remove(os.path.join(core.SPEC, cfg))
+    acc.notes.append("ClassicOpt non-vacuity: the variants zero_path_is_args (8cba968), compose_reversed and constant_in_env violate the soundness assertion")
     cc.drive_and_validate(acc, 3000 if tier == 'quick' else 60000, 'C04')
     acc.exhaustive = True
 
